@@ -180,6 +180,7 @@ def run(rep: core.Report):
     _r16g(rep)
     _r16k(rep)
     _r16l(rep)
+    _r16m(rep)
     _r16j(rep)
     from rules import c03
 
@@ -711,6 +712,33 @@ def _r16j(rep):
 
 
 
+def _r16m(rep):
+    """Writers start from an empty file."""
+    rep.rule("R16m", "file writers (write_* functions of phonopy/file_IO.py and the yaml / hdf5 writers of the phonon classes): every file a writer opens for output is opened truncating (mode 'w' / 'wb'): what the file holds afterwards is exactly what this call wrote; an appending or updating mode keeps optional entries of an earlier file (a physical unit, a p2s_map) next to the new data, and the reader applies them", 6)
+    n = 0
+    for rel in ("phonopy/file_IO.py", "phonopy/phonon/band_structure.py", "phonopy/phonon/mesh.py", "phonopy/phonon/qpoints.py", "phonopy/phonon/dos.py", "phonopy/phonon/thermal_properties.py", "phonopy/interface/phonopy_yaml.py"):
+        if not (core.REPO / rel).is_file():
+            continue
+        tree = core.parse(rel)
+        for fn in [x for x in ast.walk(tree) if isinstance(x, ast.FunctionDef) and (x.name.startswith("write") or x.name.startswith("_write"))]:
+            for c in ast.walk(fn):
+                if not (isinstance(c, ast.Call) and core.src(c.func) in ("open", "h5py.File", "lzma.open", "gzip.open", "myio.open")):
+                    continue
+                mode = c.args[1] if len(c.args) > 1 else next((k.value for k in c.keywords if k.arg == "mode"), None)
+                if mode is None:
+                    continue  # default mode of open() is reading
+                if not isinstance(mode, ast.Constant) or not isinstance(mode.value, str):
+                    rep.unknown(f"R16m: {rel}::{fn.name}: mode '{core.src(mode)}' of {core.src(c.func)} is not a literal")
+                    continue
+                if mode.value.startswith("r") and "+" not in mode.value:
+                    continue
+                n += 1
+                rep.instance("R16m", rel, core.qualname_of(fn), core.norm(core.src(c), 70), mode.value in ("w", "wb", "wt", "x", "xb"),
+                             f"'{core.norm(core.src(c), 60)}' opens the output in mode '{mode.value}': datasets / lines of an earlier file that this call does not write again stay in the file (e.g. the physical unit or p2s_map of earlier force constants) and are applied to the new data by the reader", line=c.lineno)
+    if n < 6:
+        raise AnalysisError(f"R16m: only {n} output files opened by the writers")
+
+
 def _r16l(rep):
     """The dataset section of phonopy.yaml, evaluated over the four settings (force_sets, displacements)."""
     import itertools
@@ -832,6 +860,7 @@ def selftest():
     V = []
     b = lambda name, file, old, new, rule, expect="", **kw: V.append(dict(name=name, kind="break", file=file, old=old, new=new, rule=rule, expect=expect, **kw))
     n = lambda name, file, old, new, **kw: V.append(dict(name=name, kind="neutral", file=file, old=old, new=new, **kw))
+    b("hdf5 force constants written in append mode", "phonopy/file_IO.py", "    with h5py.File(filename, \"w\") as w:\n        w.create_dataset(\n            \"force_constants\"", "    with h5py.File(filename, \"a\") as w:\n        w.create_dataset(\n            \"force_constants\"", "R16m", "write_force_constants_to_hdf5")
     YML_ = "phonopy/interface/phonopy_yaml.py"
     b("dataset section only under the displacements setting", YML_, "        lines = []\n        if (\n            self._dumper_settings[\"force_sets\"]\n            or self._dumper_settings[\"displacements\"]\n        ):\n            disp_yaml_lines = self._displacements_yaml_lines(\n                with_forces=self._dumper_settings[\"force_sets\"]\n            )\n            lines += disp_yaml_lines\n        return lines\n", "        if not self._dumper_settings[\"displacements\"]:\n            return []\n        return self._displacements_yaml_lines(\n            with_forces=self._dumper_settings[\"force_sets\"]\n        )\n", "R16l", "_dataset_yaml_lines")
     n("dataset section with early return on both settings off", YML_, "        lines = []\n        if (\n            self._dumper_settings[\"force_sets\"]\n            or self._dumper_settings[\"displacements\"]\n        ):\n            disp_yaml_lines = self._displacements_yaml_lines(\n                with_forces=self._dumper_settings[\"force_sets\"]\n            )\n            lines += disp_yaml_lines\n        return lines\n", "        with_forces = self._dumper_settings[\"force_sets\"]\n        if not (with_forces or self._dumper_settings[\"displacements\"]):\n            return []\n        return self._displacements_yaml_lines(with_forces=with_forces)\n")
